@@ -20,11 +20,7 @@ from ..partition import FRESH
 from ..cfg import CFG, node_calls
 
 LEVEL = "other"
-TECHNIQUE = ('resolved dispatcher call graph with token-name propagation (SCC / reachability), constant-key '
-             'evaluation, CFG dominance of scope tests over pop loops, tokenizer epsilon-graph acyclicity; '
-             'interprocedural must-progress summaries (least fixpoint) for reprocessing hand-backs; insertion-mode '
-             'transition table; abstract interpretation of the pre-scan cursor (position-below-length typestate, '
-             'per-function summaries, try/except brackets) for escaping StopIteration / ValueError')
+TECHNIQUE = ('resolved dispatcher call graph with token-name propagation (SCC / reachability), constant-key evaluation, CFG dominance of scope tests over pop loops and evidence classes for single pops, tokenizer epsilon-graph acyclicity; interprocedural must-progress summaries (least fixpoint) for reprocessing hand-backs; insertion-mode transition table; abstract interpretation of the pre-scan cursor (position-below-length typestate, per-function summaries, try/except brackets) for escaping StopIteration / ValueError; recursion of standard-library callees read off their source')
 CLAIM = ('Over all code (not sampled inputs): every constant key used to index a constant table exists (no '
          'KeyError on a rare path); the only recursion in tree construction is the bounded '
          'endTagP/startTagCloseP pair (no input-depth recursion -> no RecursionError); every loop that pops '
